@@ -27,8 +27,8 @@ func init() {
 			"integers beyond 2^53 are compared by effect (all replicas agree), not with the Go literal",
 			"the BSON stage is bson.Marshal/Unmarshal of schema.OperationDoc as the repository layer does; a real insert/find through the MongoDB stand-in is exercised by the E-svc checks",
 		},
-		Cases: func(t string) int { return tierN(t, 1200, 60000) },
-		Floor: func(t string) int { return tierN(t, 300, 15000) },
+		Cases: func(t string) int { return tierN(t, 4000, 60000) },
+		Floor: func(t string) int { return tierN(t, 1000, 15000) },
 		Run:   runC14,
 	})
 }
@@ -165,6 +165,7 @@ func runC14(c *core.Case) *core.Result {
 	g := crdt.NewGen(c.Rng)
 	g.Exotic = 0.5
 	g.BigBatch = 0.15
+	g.HostileKeys = 0.3
 	h := crdt.NewHist(c, g, typ, 2)
 	O := h.Reps[0]
 	if c.Index%3 == 0 {
